@@ -105,6 +105,9 @@ func loadErr(err error) map[string]interface{} {
 	return map[string]interface{}{"kind": "table", "what": tableErrClass(s)}
 }
 
+// routeParse is fabio's own parser on a text.
+func routeParse(text string) ([]*route.RouteDef, error) { return route.VerifParse(text) }
+
 // parseOne is the implementation-side oracle for one emitted command: what fabio's own parser and a fresh
 // routing table make of it.
 func parseOne(cmd string) map[string]interface{} {
